@@ -4,4 +4,5 @@ pub mod c11;
 pub mod c12;
 pub mod c14;
 pub mod c16;
+pub mod c17;
 pub mod c19;
